@@ -139,7 +139,7 @@ def oracle_run(args):
          if not balance_ok else "") + "; ".join(problems)
 
 
-ORACLES = {"force": oracle_force, "run": oracle_run}
+ORACLES = {"whole_run": rc.oracle_whole_run, "force": oracle_force, "run": oracle_run}
 
 
 def run(ctx):
